@@ -60,7 +60,20 @@ pub mod custom {
                 _ => env.storage().instance().get(&symbol_short!("symbol")).unwrap(),
             }
         }
-        pub fn decimals(env: Env) -> u32 {
+        /// from now on `decimals()` cannot be read: mode 1 traps, mode 2 answers with a value that is no u32
+        pub fn set_broken(env: Env, mode: u32) {
+            env.storage().instance().set(&symbol_short!("broken"), &mode);
+        }
+        pub fn decimals(env: Env) -> soroban_sdk::Val {
+            use soroban_sdk::IntoVal;
+            match env.storage().instance().get::<_, u32>(&symbol_short!("broken")) {
+                Some(1) => panic!("decimals unavailable"),
+                Some(_) => return (-7i128).into_val(&env),
+                None => {}
+            }
+            Self::decimals_u32(env.clone()).into_val(&env)
+        }
+        fn decimals_u32(env: Env) -> u32 {
             let n = Self::nth_read(&env, symbol_short!("rdec"));
             match env.storage().instance().get::<_, u32>(&symbol_short!("altdec")) {
                 Some(alt) if n >= 1 => alt,
@@ -273,6 +286,13 @@ impl ItsWorld {
                 let _ = self.events();
                 ("ok".into(), String::new())
             }
+            "ctok.break" => {
+                // ctok.break <addr> <mode>: the token's `decimals()` traps (1) or answers with a non-u32 value (2) from now on
+                let a = Addr::parse(t[1]).sdk(&env);
+                CustomTokenClient::new(&env, &a).set_broken(&pu32(t[2]));
+                let _ = self.events();
+                ("ok".into(), String::new())
+            }
             "ctok.mint" => {
                 let a = Addr::parse(t[1]).sdk(&env);
                 CustomTokenClient::new(&env, &a).mint(&Addr::parse(t[2]).sdk(&env), &pi128(t[3]));
@@ -474,6 +494,7 @@ impl ItsWorld {
                     }
                 }
                 match (&tree, t[6]) {
+                    (None, "*") => env.mock_all_auths_allowing_non_root_auth(),
                     (_, "-") | (None, _) => env.set_auths(&[]),
                     (Some(tr), spec) => install_auth_tree(&env, spec, tr, (1u32,).into_val(&env)),
                 }
